@@ -47,6 +47,49 @@ from molli.chem import (
 
 LEVEL = "model_checking"
 
+import collections
+import dataclasses
+
+# kinds of values an attribute dictionary may hold (module level: picklable)
+NT = collections.namedtuple("NT", ["n", "s"])
+
+
+@dataclasses.dataclass(frozen=True)
+class DC:
+    x: float
+    tag: str
+
+
+_WITH_NT = False  # population "full+nt": the dictionaries additionally hold namedtuples (set by run_cell)
+
+
+def exotic(seed, ref=None, fref=None, rich=True):
+    """dict subclasses, a namedtuple, a frozen dataclass, references to atoms (one of the same object,
+    one of a foreign molecule), set / frozenset / bytes / bytearray, a numpy scalar and a 0-d array,
+    nested mixes"""
+    d = {
+        "cnt": collections.Counter({"a": 1, "b": seed + 2}),
+        "od": collections.OrderedDict([("z", 1), ("a", seed)]),
+        "set": {1, seed + 5},
+        "ns": np.float64(1.5 + seed),
+        "a0": np.array(2.5 + seed),
+    }
+    if rich:
+        dd = collections.defaultdict(list)
+        dd["k"].append(seed)
+        d.update({"dd": dd, "dc": DC(1.5, "y"), "fs": frozenset({3, "q"}), "by": b"\x00\x01", "ba": bytearray(b"\x02"), "ni": np.int32(7), "mix": {"c": collections.Counter(x=1), "l": [collections.OrderedDict(q=1), (DC(2.5, "z"),)], "t": (1, [2])}})
+    if _WITH_NT:
+        # kept in a population of its own: a route that cannot carry a namedtuple RAISES, which would hide
+        # what it does to every other kind
+        d["nt"] = NT(seed, "x")
+        if rich:
+            d["mixnt"] = {"l": [(NT(2, "y"),)]}
+    if ref is not None:
+        d["ref"] = ref
+    if fref is not None:
+        d["fref"] = fref
+    return d
+
 warnings.filterwarnings("ignore")
 np.seterr(all="ignore")
 
@@ -109,7 +152,7 @@ def ap_of():
     return (4, 4) if _chiral() else AP
 
 
-POPS = ["full", "bare", "void"]
+POPS = ["full", "full+nt", "bare", "void"]
 """initial condition of the mutable containers AT COPY TIME:
 full : every attribute dictionary populated (flat values, nested dicts - one of them empty -, a nested
        list, an ndarray), bonds present
@@ -127,6 +170,9 @@ def _atoms(tag, seed, pop="full"):
         # label '' (None), atype Unknown = 0 (Regular); stereo / geom / formal_charge default to their falsy member
         Atom("H", isotope=0, label="", atype=AtomType.Unknown, formal_spin=1, attrib={"n": {"x": None}}),
     ]
+    if not _chiral() and pop.startswith("full"):
+        foreign = Promolecule([Atom("N", label="foreign", attrib={"k": "f"})]).atoms[0]  # an atom of ANOTHER molecule
+        at[0].attrib.update(exotic(seed, ref=at[1], fref=foreign))  # "ref": another atom of the SAME object
     if _chiral():
         at = [
             Atom("C", label=f"c0{tag}", atype=AtomType.sp3, stereo=AtomStereo.R, geom=AtomGeom.R4_Tetrahedral, attrib={"k": v, "n": {"x": [1, v]}}),
@@ -135,20 +181,20 @@ def _atoms(tag, seed, pop="full"):
             Atom("O", label=f"o3{tag}", formal_charge=-1, attrib={"k": 0}),
             Atom("H", label=f"h4{tag}", attrib={"k": None}),
         ]
-    if pop != "full":
+    if not pop.startswith("full"):
         for a in at:
             a.attrib = {}
     return at
 
 
 def _mol_attrib(seed, pop):
-    return {"mk": seed + 1, "mn": {"y": [seed, "s"]}, "me": {}, "arr": np.array([0.5, 2.0])} if pop == "full" else {}
+    return {"mk": seed + 1, "mn": {"y": [seed, "s"]}, "me": {}, "arr": np.array([0.5, 2.0]), **exotic(seed, rich=False)} if pop.startswith("full") else {}
 
 
 def _bond_attrib(j, seed, pop):
-    if pop != "full":
+    if not pop.startswith("full"):
         return {}
-    return {"bk": seed, "bn": {"z": [seed]}} if j == 0 else ({"bn": {"z": 0}, "be": {}} if j == 1 else {})
+    return {"bk": seed, "bn": {"z": [seed]}, **exotic(seed, rich=False)} if j == 0 else ({"bn": {"z": 0}, "be": {}} if j == 1 else {})
 
 
 def _coords(seed, conf=0, tag=""):
@@ -181,6 +227,8 @@ def build_base(clsname, seed, tag="", pop="full"):
         kw["atomic_charges"] = _charges(0, tag)
     m = cls(_atoms(tag, seed, pop), name=f"src{tag}", charge=-1, mult=2, **kw)
     m.attrib.update(_mol_attrib(seed, pop))
+    if pop.startswith("full") and not _chiral():
+        m.attrib["ref"] = m.atoms[2]  # a molecule-level reference to one of its own atoms
     if issubclass(cls, Connectivity):
         for j, (a, b) in enumerate(bonds_of()):
             bd = m.connect(a, b)
@@ -195,6 +243,8 @@ def build_base(clsname, seed, tag="", pop="full"):
                 bd.btype = BondType.Unknown
                 bd.f_order = 0.0
             bd.attrib.update(_bond_attrib(j, seed, pop))
+            if j == 0 and pop.startswith("full") and not _chiral():
+                bd.attrib["ref"] = m.atoms[3]
     return m
 
 
@@ -214,6 +264,11 @@ def build_ensemble(seed, tag="", pop="full"):
     e.attrib = _mol_attrib(seed, pop)
     for j, b in enumerate(e.bonds):
         b.attrib = _bond_attrib(j, seed, pop)
+    if pop.startswith("full") and not _chiral():
+        # references to atoms must point into the ensemble itself
+        e.atoms[0].attrib["ref"] = e.atoms[1]
+        e.attrib["ref"] = e.atoms[2]
+        e.bonds[0].attrib["ref"] = e.atoms[3]
     e.weights = list(WEIGHTS)
     return e
 
@@ -252,6 +307,48 @@ def enc(v, depth=0):
     return ("obj", type(v).__name__, repr(v))
 
 
+def _tn(t):
+    return f"{t.__module__}.{t.__qualname__}"
+
+
+def enc_t(v, depth=0):
+    """TYPE-exact encoding of a value held in an attribute dictionary: type(x) is type(y) all the way
+    down (a Counter is not a dict, a tuple is not a list, numpy.float64 is not float, a namedtuple is
+    not a tuple, an Atom is not the dictionary of its fields)"""
+    if depth > 8:
+        return ("deep",)
+    if v is None:
+        return None
+    t = type(v)
+    tn = _tn(t)
+    if isinstance(v, (bool, str, bytes)):
+        return (tn, v)
+    if isinstance(v, bytearray):
+        return (tn, bytes(v))
+    if isinstance(v, (float, np.floating)):
+        f = float(v)
+        return (tn, "NaN" if f != f else f"{f!r}|{f.hex()}")
+    if isinstance(v, (int, np.integer)):
+        return (tn, int(v))
+    if isinstance(v, dict):
+        items = [(repr(k), enc_t(x, depth + 1)) for k, x in v.items()]
+        if not isinstance(v, collections.OrderedDict):
+            items.sort(key=lambda kv: kv[0])
+        fac = getattr(v, "default_factory", None)
+        return ("dict", tn, None if fac is None else _tn(fac) if isinstance(fac, type) else repr(fac), tuple(items))
+    if isinstance(v, (list, tuple)):
+        return ("seq", tn, tuple(enc_t(x, depth + 1) for x in v))
+    if isinstance(v, (set, frozenset)):
+        return ("set", tn, tuple(sorted((enc_t(x, depth + 1) for x in v), key=repr)))
+    if isinstance(v, np.ndarray):
+        return ("nd", tn, v.shape, v.dtype.str, enc_t(v.tolist(), depth + 1))
+    if isinstance(v, Atom):
+        return ("Atom", tn, tuple((f, enc(getattr(v, f))) for f in ATOM_FIELDS), enc_t(v.attrib, depth + 1))
+    if isinstance(v, Bond):
+        return ("Bond", tn, tuple((f, enc(getattr(v, f))) for f in BOND_FIELDS))
+    return ("obj", tn, repr(v))
+
+
 def _rel(getter, owners):
     try:
         p = getter()
@@ -276,7 +373,7 @@ def _get(fn):
 
 def snap_atom(a, owners, pos):
     d = {f: _get(lambda f=f: enc(getattr(a, f))) for f in ATOM_FIELDS}
-    d["attrib"] = _get(lambda: enc(a.attrib))
+    d["attrib"] = _get(lambda: enc_t(a.attrib))
     d["parent"] = _rel(lambda: a.parent, owners)
     if d["parent"] == "self":
         d["idx"] = _get(lambda: a.idx)
@@ -292,7 +389,7 @@ def snap(obj, owner=None):
     s["name"] = _get(lambda: enc(obj.name))
     s["charge"] = _get(lambda: enc(obj.charge))
     s["mult"] = _get(lambda: enc(obj.mult))
-    s["attrib"] = _get(lambda: enc(obj.attrib))
+    s["attrib"] = _get(lambda: enc_t(obj.attrib))
     atoms = _get(lambda: list(obj.atoms))
     if isinstance(atoms, str):
         s["atoms"] = atoms
@@ -310,7 +407,7 @@ def snap(obj, owner=None):
                 d = {f: _get(lambda f=f: enc(getattr(b, f))) for f in BOND_FIELDS}
                 d["a1"] = pos.get(id(b.a1), "foreign")
                 d["a2"] = pos.get(id(b.a2), "foreign")
-                d["attrib"] = _get(lambda: enc(b.attrib))
+                d["attrib"] = _get(lambda: enc_t(b.attrib))
                 d["parent"] = _rel(lambda: b.parent, owners)
                 bl.append(d)
             s["bonds"] = bl
@@ -340,8 +437,8 @@ def _sub_containers(v, path, out, depth=0):
     elif isinstance(v, tuple):
         for i, x in enumerate(v):
             _sub_containers(x, path + (i,), out, depth + 1)
-    elif isinstance(v, np.ndarray):
-        out.append((path, v))
+    elif isinstance(v, (np.ndarray, set, bytearray, Atom, Bond)):
+        out.append((path, v))  # mutable leaves (a referenced Atom / Bond is a mutable record)
 
 
 def reach(obj, owner=None):
@@ -385,7 +482,7 @@ def reach(obj, owner=None):
 def _is_empty(c):
     if isinstance(c, np.ndarray):
         return c.size == 0
-    if isinstance(c, (dict, list)):
+    if isinstance(c, (dict, list, set, bytearray)):
         return len(c) == 0
     return False
 
@@ -660,8 +757,14 @@ def _write_nested(dicts, v):
                 c["nn"] = v
             elif isinstance(c, list):
                 c.append(v)
-            else:
+            elif isinstance(c, set):
+                c.add(("nn", v))
+            elif isinstance(c, bytearray):
+                c.append(v % 256)
+            elif isinstance(c, np.ndarray):
                 c[(0,) * c.ndim] = 41.0 + v
+            else:
+                continue  # a referenced Atom / Bond: its own fields are edited by the atom mutations
             n += 1
     if not n:
         raise _NA()
@@ -809,12 +912,14 @@ def sig(kind, symptom):
 
 def run_cell(ctx, cell, report=True):
     """executes one cell (with the source geometry the cell names); returns an outcome digest"""
-    global _GEOM
+    global _GEOM, _WITH_NT
     _GEOM = cell.get("geom", "std")
+    _WITH_NT = cell.get("pop") == "full+nt"
     try:
         return _run_cell(ctx, cell)
     finally:
         _GEOM = "std"
+        _WITH_NT = False
 
 
 _FRAG_DETAIL = {}
@@ -1020,7 +1125,7 @@ def _empty_container_at(snapshot, path):
         for x in path:
             cur = cur[x]
             if x == "attrib":
-                return cur == ("dict", ())
+                return isinstance(cur, tuple) and cur[0] == "dict" and cur[-1] == ()
     except Exception:
         return False
     return False
@@ -1082,7 +1187,7 @@ def _repro_of(cell, seed):
     if pop == "void":
         L += ["def build(tag=''):", "    return Molecule(name='src'+tag, charge=-1, mult=2)   # no atoms, no bonds, empty attrib", ""]
     else:
-        full = pop == "full"
+        full = pop.startswith("full")
         L += [
             "def build(tag=''):",
             "    atoms = [Atom('C', label='c0'+tag), Atom('O', label='o1'+tag), Atom('H', label='h2'+tag), Atom('H', isotope=0, label='', atype=AtomType.Unknown)]",
@@ -1202,6 +1307,11 @@ def cells(ctx):
             for r in routes_for[s]:
                 if not _pop_ok(pop, r):
                     continue
+                if pop == "full+nt":
+                    # the same routes with namedtuples in the dictionaries: decided when the copy is made
+                    for d in ("copy", "source"):
+                        out.append({"src": s, "pop": pop, "route": list(r), "muts": ["atom.attrib[k]"], "dir": d})
+                    continue
                 for m in muts:
                     for d in ("copy", "source"):
                         out.append({"src": s, "pop": pop, "route": list(r), "muts": [m], "dir": d})
@@ -1303,7 +1413,13 @@ def run(ctx):
         "a | b of two Molecules returns a Structure, which has no partial charges: not compared for that route",
         "coordinates, partial charges and weights are compared bit for bit (NaN == NaN) on every route: none of them goes through "
         "a text or library format; the source values are not representable in float32 (1e-7 ... 1e3)",
-        "attribute dictionaries are compared recursively by value (list == tuple); 'shares no mutable state' includes nested "
+        "what attrib may hold: Counter, defaultdict, OrderedDict, a namedtuple, a frozen dataclass, references to atoms (same object "
+        "and foreign), set / frozenset / bytes / bytearray, numpy scalars and 0-d arrays, nested mixes - at atom, bond and molecule "
+        "level.  The walker compares the exact type recursively (type(x) is type(y)).  A reference to an atom must arrive as an Atom "
+        "with equal fields that is not the source's object; WHICH atom it is is not demanded: on HEAD pickle / deepcopy re-point it at "
+        "the copy's corresponding atom, the copy constructors / concatenate / join produce a detached deep copy of it (recorded, "
+        "taken as the rule).  Library codecs (msgpack) are C01's subject, only copy routes are judged here",
+        "attribute dictionaries are compared recursively by value; 'shares no mutable state' includes nested "
         "containers inside attribute dictionaries",
         "bonds are snapshot as ORDERED (index(a1), index(a2)) pairs plus every field; the sources store bonds in mixed directions "
         "and not sorted by index.  Every field of atoms and bonds occurs with the falsy member of its domain where that is not the "
